@@ -15,13 +15,30 @@ pattern of admissible traces given by models/evalorder.py.
             failed call all or nothing.
  lazy       and / or / not / ?. / switch / selectCase / switchCase / coalesce /
             selectAllCases / examine over the truth alphabet {true, false,
-            null, 0} per operand, and each of them nested in every operand
-            position of each other (depth 2).  Oracle: exactly the selected
-            operands.
+            null, 0} per operand plus operands that log their tick and then
+            FAIL (one per class of error the library itself catches somewhere
+            or data access raises: IndexError, KeyError, StopIteration,
+            ValueError, TypeError, unknown function, no matching function /
+            method), and each construct nested in every operand position of
+            each other (depth 2).  Oracle: exactly the selected operands; the
+            error of an evaluated operand leaves the construct - nothing after
+            it is evaluated, nothing twice, the error is the one observed.  A
+            failing case is reduced to the innermost construct that fails on
+            its own, which names the finding.
  stream     per-element lambdas of the streaming functions over all lists
             <= 3 over {1, 2, 3}, two operators chained, under consumers that
-            stop early.  Oracle: once per element consumed, in element order,
-            interleaved on demand.
+            stop early (take, first, a zip partner that ends first, a
+            membership test; takeWhile / any / all / indexWhere as stages).
+            The same over sources that compute their elements on demand and
+            whose own lambdas are probes: generate (predicate, producer,
+            selector, eager initial value; the predicate admitting 0..4
+            elements; decycle over a cycle), generateMany (chain and tree,
+            breadth / depth first, selector), range, and the endless
+            sequence() wherever the consumer stops within the model's horizon.
+            Oracle: once per element consumed, in element order, interleaved
+            on demand; for a generated source exactly the applications the
+            consumed elements need (n elements of generate: predicate and
+            selector n times, producer n - 1 times).
  binders    literals, mapping rules, index, let / with / unpack / def /
             lambda / -> : arguments before bodies.
 """
@@ -41,8 +58,8 @@ from yaql.language import yaqltypes as yt
 ID = 'C11'
 TITLE = 'evaluation order and laziness'
 RULE = ('defs: every definition x call form x (typed probe, reversed keywords, kind corpus ^ eager positions); '
-        'lazy: every construct x truth alphabet ^ operands, and every construct in every operand position of every '
-        'construct; stream: list x operator(lambda) x [operator(lambda)] x consumer; a case is distinct by its text '
+        'lazy: every construct x (truth alphabet + failing operands) ^ operands, and every construct in every operand position of every '
+        'construct; stream: (list | lazily generated source with probe lambdas) x [operator(lambda)] x [operator(lambda)] x consumer; a case is distinct by its text '
         'and non-trivial when at least one tick is expected and (defs) the call returned a value')
 ASSUMPTIONS = [
     'which parameters are lazy is read from the declarations (LazyParameterType), as the language reference says a function "may declare a lazy argument"',
@@ -50,13 +67,23 @@ ASSUMPTIONS = [
     'a failed call may have evaluated none of its arguments (unknown function, arity, constant type) or all eager ones (types checked after evaluation); a method receiver is evaluated by `.` first',
     'the number of key evaluations of orderBy and the relative order of different lambdas applied to one element (toDict, groupBy) are unspecified',
     'helper method then(x) (returns x) is registered next to tick to give `?.` a method that accepts every receiver',
+    'nothing in the language catches an error: the error raised while an operand is evaluated ends the evaluation of every construct around it (the class of the observed error is compared in the lazy part)',
+    'generate(initial, predicate, producer, selector) "produces initial, producer(initial), ... while predicate holds": element n needs predicate and selector on itself and the producer on its n - 1 predecessors only; '
+    'whether generate asks the predicate about a value that decycle rejects, and when generateMany breadth first over a branching tree asks for the children of a node whose successor is already queued, is unspecified (not enumerated)',
+    'zip asks its collections in the order written and stops at the first that is exhausted; the early-ending partner is written first so that the stream is asked for exactly one element',
+    'sequence() is endless: the model follows it for 9 elements; a case whose consumer needs more is counted out of domain and not executed (without an iterator limit it would not end)',
 ]
 BOUNDS = {
-    'quick': 'defs: kind corpus {1, abc, [1,2,3], null, {a=>1}, true} (<= 2 eager positions, else 2 kinds); lazy: depth 1 full alphabet, depth 2 one nested '
-             'construct with alphabet {true, null, 0}; stream: lists <= 2 over {1,2}, 2 chained operators (second stage also memorize / defaultIfEmpty), on 2 engine profiles {limits+quota, no options}; binders: fixed list',
-    'thorough': 'defs: kind corpus of 8 kinds (<= 2 eager positions, 6 kinds for 3, 4 for 4, 2 beyond); lazy: depth 2 with the full alphabet, and '
-                'both slots of the two-slot constructs nested with alphabet {true, null, 0}; '
-                'stream: lists <= 3 over {1,2,3}, 2 chained operators (second stage also memorize / defaultIfEmpty), on 4 engine profiles {limits+quota, no options, quota only, limit only}; binders: fixed list',
+    'quick': 'defs: kind corpus {1, abc, [1,2,3], null, {a=>1}, true} (<= 2 eager positions, else 2 kinds); lazy: depth 1 alphabet {true, false, null, 0} + 8 failing operands '
+             '(one per error class) in every operand position (full product), depth 2 one nested construct with alphabet {true, null, 0} and again with {true, null, operand failing with IndexError} '
+             'with exactly one failing operand in every position; stream: lists <= 2 over {1,2}, 2 chained operators (second stage also memorize / defaultIfEmpty), consumers {all, take 1, take 2, first, count}; '
+             'generated sources (generate with predicate admitting 0..3 elements x selector or none, decycle over a 2-cycle, generateMany chain breadth/depth first and tree depth first x selector or none, '
+             'range of 0..3 elements, sequence) x (no stage | 1 operator incl. memorize / defaultIfEmpty) x consumers {all, take 1, take 2, first, count, zip with a 1-element partner, in}; '
+             'on 2 engine profiles {limits+quota, no options}; binders: fixed list',
+    'thorough': 'defs: kind corpus of 8 kinds (<= 2 eager positions, 6 kinds for 3, 4 for 4, 2 beyond); lazy: depth 1 as quick, depth 2 with the full truth alphabet and, for each of the 8 error classes, '
+                'with {true, null, failing operand} with exactly one failing operand in every position, and both slots of the two-slot constructs nested with alphabet {true, null, 0}; '
+                'stream: lists <= 3 over {1,2,3} and generated sources (generate admitting 0..4 elements, the others as quick), up to 2 chained operators (also memorize / defaultIfEmpty), consumers as quick, '
+                'on 4 engine profiles {limits+quota, no options, quota only, limit only}; binders: fixed list',
 }
 
 OPTIONS = {'yaql.limitIterators': 500, 'yaql.memoryQuota': 5000000}
@@ -378,6 +405,20 @@ def job_defs(tier, k, K):
 TRUTH = [True, False, None, 0]
 
 
+class Raises(object):
+    """an operand that logs its tick and then fails with an error of the named class"""
+
+    def __init__(self, cls):
+        self.cls = cls
+
+
+# one operand per class of error the library itself catches somewhere (StopIteration: first / single / runner;
+# IndexError, NoMatching*: the groupBy aggregator; ValueError: the lexer; the resolution errors: choose_overload)
+# or that ordinary data access raises (KeyError, TypeError)
+RAISERS = [Raises(c) for c in ('IndexError', 'KeyError', 'StopIteration', 'ValueError', 'TypeError',
+                               'NoFunctionRegisteredException', 'NoMatchingFunctionException', 'NoMatchingMethodException')]
+
+
 class Ids(object):
     def __init__(self):
         self.n = 0
@@ -387,6 +428,8 @@ class Ids(object):
         return ('call', 'tick', [('lit', self.n), value_ast], [])
 
     def leaf(self, v):
+        if isinstance(v, Raises):
+            return ('raise', v.cls, self.tick(('lit', 1)))
         if isinstance(v, int) and not isinstance(v, bool) and v < 0:
             return self.tick(('neg', ('lit', -v)))
         return self.tick(('lit', v))
@@ -409,14 +452,38 @@ CASE_VALUES = [0, 1, 2, -1]     # the receiver of switchCase is an integer
 
 
 def leaf_values(cname, slot, alphabet):
-    return CASE_VALUES if (cname == 'switchCase' and slot == 0) else alphabet
+    if cname == 'switchCase' and slot == 0:
+        return CASE_VALUES + [v for v in alphabet if isinstance(v, Raises)]
+    return alphabet
+
+
+def nested(cname, k, build, hole, iname, ik, ibuild, outer_alpha, inner_alpha, one_raises=False):
+    """the construct iname in operand position hole of the construct cname, leaves over the alphabets
+    (one_raises: only the combinations with exactly one failing operand)"""
+    outer = [leaf_values(cname, i, outer_alpha) for i in range(k) if i != hole]
+    inner = [leaf_values(iname, i, inner_alpha) for i in range(ik)]
+    for ov in itertools.product(*outer):
+        for iv in itertools.product(*inner):
+            if one_raises and sum(isinstance(v, Raises) for v in ov + iv) != 1:
+                continue
+            ids = Ids()
+            slots = []
+            ovs = list(ov)
+            for i in range(k):
+                if i == hole:
+                    slots.append(ibuild([ids.leaf(v) for v in iv]))
+                else:
+                    slots.append(ids.leaf(ovs.pop(0)))
+            yield '%s/%s@%d' % (cname, iname, hole), build(slots)
 
 
 def lazy_cases(tier):
-    """(label, ast) - depth 1: every construct x alphabet ^ slots; depth 2: one slot holds another construct."""
+    """(label, ast) - depth 1: every construct x (truth alphabet + raising operands) ^ slots; depth 2: one slot
+    holds another construct, leaves over the truth alphabet, and again over {true, null, raising operand} with
+    exactly one leaf that raises, in every position (quick: IndexError; thorough: every class)."""
     inner_alpha = [True, None, 0] if tier == 'quick' else TRUTH
     for cname, k, build in CONSTRUCTS:
-        for values in itertools.product(*[leaf_values(cname, i, TRUTH) for i in range(k)]):
+        for values in itertools.product(*[leaf_values(cname, i, TRUTH + RAISERS) for i in range(k)]):
             ids = Ids()
             yield cname, build([ids.leaf(v) for v in values])
     for cname, k, build in CONSTRUCTS:
@@ -424,20 +491,11 @@ def lazy_cases(tier):
             if cname == 'switchCase' and hole == 0:
                 continue            # its receiver must be an integer; no construct of the alphabet yields one
             for iname, ik, ibuild in CONSTRUCTS:
-                outer_alpha = [leaf_values(cname, i, inner_alpha) for i in range(k) if i != hole]
-                inner_alphas = [leaf_values(iname, i, inner_alpha) for i in range(ik)]
-                for ov in itertools.product(*outer_alpha):
-                    for iv in itertools.product(*inner_alphas):
-                        ids = Ids()
-                        slots = []
-                        ovs = list(ov)
-                        for i in range(k):
-                            if i == hole:
-                                slots.append(ibuild([ids.leaf(v) for v in iv]))
-                            else:
-                                slots.append(ids.leaf(ovs.pop(0)))
-                        yield '%s/%s@%d' % (cname, iname, hole), build(slots)
-
+                for case in nested(cname, k, build, hole, iname, ik, ibuild, inner_alpha, inner_alpha):
+                    yield case
+                for r in (RAISERS[:1] if tier == 'quick' else RAISERS):
+                    for case in nested(cname, k, build, hole, iname, ik, ibuild, [True, None, r], [True, None, r], True):
+                        yield case
 
     if tier == 'thorough':
         # both slots of the two-slot constructs hold a construct
@@ -475,8 +533,9 @@ PREDICATES = [GT1, LT2, EQ2, ('lit', True), ('lit', None)]
 SUM12 = ('bin', '+', ('var', '1'), ('var', '2'))
 
 
-def stream_ops(base):
-    """(name, builder(source ast) -> ast) with lambdas whose tick ids start at base"""
+def stream_ops(base, buffering):
+    """(name, builder(source ast) -> ast) with lambdas whose tick ids start at base; buffering: also the
+    stages without a lambda of their own that buffer a lazily computed source"""
     out = []
     for p in PREDICATES:
         for name in ('where', 'takeWhile', 'skipWhile', 'any', 'all', 'indexWhere'):
@@ -496,8 +555,7 @@ def stream_ops(base):
     out.append(('aggregate', lambda src: ('meth', src, 'aggregate', [lam2(base, SUM12), ('lit', 0)])))
     out.append(('aggregate', lambda src: ('meth', src, 'aggregate', [lam2(base, SUM12)])))
     out.append(('accumulate', lambda src: ('meth', src, 'accumulate', [lam2(base, SUM12), ('lit', 0)])))
-    if base >= 100:
-        # buffering stages without a lambda of their own, behind a stage that computes its elements lazily
+    if buffering:
         out.append(('memorize', lambda src: ('meth', src, 'memorize', [])))
         out.append(('defaultIfEmpty', lambda src: ('meth', src, 'defaultIfEmpty', [('list', [('lit', 7)])])))
     return out
@@ -510,7 +568,59 @@ CONSUMERS = [
     ('take2', lambda src: ('meth', src, 'take', [('lit', 2)])),
     ('first', lambda src: ('meth', src, 'first', [])),
     ('count', lambda src: ('meth', src, 'count', [])),
+    # a zip partner that is exhausted first (written first: zip asks it for its second element before it asks
+    # the stream), a membership test that ends at the first hit
+    ('zip-shorter', lambda src: ('meth', ('list', [('lit', 7)]), 'zip', [src])),
+    ('in', lambda src: ('bin', 'in', ('lit', 2), src)),
 ]
+LIST_CONSUMERS = 5      # streams over list literals are consumed by the first five only
+
+
+def generated_sources(tier):
+    """(name, ast) of sources that compute their elements on demand.  The lambdas of generate / generateMany log
+    200 + element (predicate), 300 + element (producer), 400 + element (selector); the eager initial value logs 1.
+    Elements are 1, 2, 3, ... so that every logged id names lambda and element."""
+    one = ('lit', 1)
+    init = ('call', 'tick', [one, one], [])
+    succ = ('bin', '+', D, one)
+    sizes = range(4) if tier == 'quick' else range(5)
+
+    def table(rows):
+        # [rows][$]: a function of the element given by a list literal
+        return ('index', ('list', [('list', [('lit', x) for x in r]) if isinstance(r, list) else ('lit', r) for r in rows]), D)
+    for n in sizes:
+        # the predicate admits the elements 1 .. n
+        pred = lam(200, ('bin', '<', D, ('lit', n + 1)))
+        yield 'generate', ('call', 'generate', [init, pred, lam(300, succ)], [])
+        yield 'generate', ('call', 'generate', [init, pred, lam(300, succ), lam(400, D)], [])
+    # decycle: the producer runs in the cycle 1 -> 2 -> 1 and the repetition ends the sequence (a predicate
+    # without tick: whether it is asked about the repeated value is not specified)
+    cycle = lam(300, table([0, 2, 1]))
+    yield 'generate', ('call', 'generate', [init, ('lit', True), cycle], [['decycle', ('lit', True)]])
+    yield 'generate', ('call', 'generate', [init, ('lit', True), cycle, lam(400, D)], [['decycle', ('lit', True)]])
+    # generateMany over the chain 1 -> 2 -> 3 in both traversal orders and depth first over the tree 1 -> (2 -> 3, 3)
+    # (breadth first over a branching tree the next node is known without the children of the current one:
+    # when its producer has to run is not determined by the documented meaning)
+    chain, tree = table([[], [2], [3], []]), table([[], [2, 3], [3], []])
+    for children, depth_first in ((chain, False), (chain, True), (tree, True)):
+        kw = [['depthFirst', ('lit', True)]] if depth_first else []
+        yield 'generateMany', ('call', 'generateMany', [init, lam(300, children)], kw)
+        yield 'generateMany', ('call', 'generateMany', [init, lam(300, children), lam(400, D)], kw)
+    # sources without lambdas of their own: the stages behind them must not ask for more than is consumed
+    for n in sizes:
+        yield 'range', ('call', 'range', [one, ('lit', n + 1)], [])
+    # endless: only cases whose consumer stops within the model's horizon are executed (see judge_model)
+    yield 'sequence', ('call', 'sequence', [one], [])
+
+
+def stages(first, n1, seconds, consumers):
+    if n1 in SCALAR_RESULT or n1 == 'groupBy':
+        seconds = seconds[:1]
+    for n2, b2 in seconds:
+        second = b2(first)
+        last = n2 or n1
+        for cn, cb in (consumers if last not in SCALAR_RESULT else consumers[:1]):
+            yield '%s%s|%s' % (n1, '.' + n2 if n2 else '', cn), cb(second)
 
 
 def stream_cases(tier):
@@ -518,19 +628,18 @@ def stream_cases(tier):
         lists = [list(t) for n in range(3) for t in itertools.product((1, 2), repeat=n)]
     else:
         lists = [list(t) for n in range(4) for t in itertools.product((1, 2, 3), repeat=n)]
+    identity = ('', lambda s: s)
     for lst in lists:
         src = ('list', [('lit', x) for x in lst])
-        for n1, b1 in stream_ops(10):
-            first = b1(src)
-            seconds = [('', lambda s: s)]
-            if n1 not in SCALAR_RESULT and n1 != 'groupBy':
-                seconds += stream_ops(100)
-            for n2, b2 in seconds:
-                second = b2(first)
-                last = n2 or n1
-                consumers = CONSUMERS if last not in SCALAR_RESULT else CONSUMERS[:1]
-                for cn, cb in consumers:
-                    yield '%s%s|%s' % (n1, '.' + n2 if n2 else '', cn), cb(second)
+        for n1, b1 in stream_ops(10, False):
+            for case in stages(b1(src), n1, [identity] + stream_ops(100, True),
+                               CONSUMERS[:LIST_CONSUMERS]):
+                yield case
+    # generated sources: directly under every consumer and behind every stage (thorough: two stages)
+    for sname, src in generated_sources(tier):
+        for n1, b1 in [identity] + stream_ops(10, True):
+            for label, ast in stages(b1(src), n1 or sname, [identity] + (stream_ops(100, True) if tier != 'quick' else []), CONSUMERS):
+                yield sname + '.' + label, ast
 
 
 # ---------------------------------------------------------------------------------
@@ -586,11 +695,18 @@ def binder_cases():
     yield 'method-chain', ('meth', ('meth', t(1, lst), 'toList', []), 'len', [])
 
 
+ENDLESS = {'endless source followed beyond the horizon'}
+
 # ---------------------------------------------------------------------------------
 # naming the failing site: the construct that decides whether the first diverging tick is evaluated
 DECIDERS = ('and', 'or', 'elvis', 'switch', 'selectCase', 'switchCase', 'coalesce', 'selectAllCases', 'examine')
 NODE_KINDS = set(DECIDERS) | {'lit', 'var', 'list', 'map', 'index', 'attr', 'bin', 'call', 'meth', 'arrow', 'dcall',
-                              'not', 'neg', 'rule', 'dict', 'dictset'}
+                              'not', 'neg', 'rule', 'dict', 'dictset', 'raise'}
+LAZY_CALLS = ('def', 'lambda', 'generate', 'generateMany')     # functions (not methods) with lazy parameters
+
+
+def site_name(node):
+    return node[2] if node[0] == 'meth' else (node[1] if node[0] == 'call' else node[0])
 
 
 def is_node(x):
@@ -628,11 +744,23 @@ def path_to_tick(node, tid, path=()):
     return None
 
 
+def is_lazy_site(node, child):
+    return node[0] in DECIDERS or (node[0] == 'call' and node[1] in LAZY_CALLS) or \
+        (node[0] == 'meth' and child is not node[1])
+
+
 def culprit(ast, pattern, log):
     """The outermost construct deciding about laziness on the way to the first diverging tick whose
-    operand holding that tick was, according to the other trace, not evaluated at all."""
+    operand holding that tick was, according to the other trace, not evaluated at all - or, if the
+    diverging tick is a repetition, whose operand is evaluated again from its beginning."""
     flat = [i for item in pattern for i in ([item] if isinstance(item, int) else sum([list(g) for g in item[1:]], []))]
     n = M.first_divergence(pattern, log)
+    if n < len(log) and log[n] in log[:n] and isinstance(log[n], int):
+        path = path_to_tick(ast, log[n]) or ()
+        for node, child in zip(path, path[1:]):
+            again = [i for i in flat if isinstance(i, int) and path_to_tick(child, i)]
+            if is_lazy_site(node, child) and again and log[n:n + len(again)] == again:
+                return site_name(node)
     if n < len(log):
         tid, other = log[n], flat              # evaluated although the model does not
     else:
@@ -642,17 +770,65 @@ def culprit(ast, pattern, log):
     if not path:
         return ast[0]
     for node, child in zip(path, path[1:]):
-        lazy_site = node[0] in DECIDERS or (node[0] == 'call' and node[1] in ('def', 'lambda')) or \
-            (node[0] == 'meth' and not any(c is child for c in (node[1],)))
-        if lazy_site and not any(path_to_tick(child, i) for i in other if isinstance(i, int)):
-            return node[2] if node[0] == 'meth' else (node[1] if node[0] == 'call' else node[0])
-    return path[-2][0] if len(path) > 1 else path[-1][0]
+        if is_lazy_site(node, child) and not any(path_to_tick(child, i) for i in other if isinstance(i, int)):
+            return site_name(node)
+    return site_name(path[-2]) if len(path) > 1 else path[-1][0]
+
+
+def verdict(ast, pattern, log, out, raised):
+    """None if the observation is admissible, else (finding key stem, explanation)."""
+    if not M.admits(pattern, log):
+        return 'order construct=%s' % culprit(ast, pattern, log), 'the ticks differ'
+    if raised and (out[0] != 'e' or out[1] != raised[0]):
+        # an operand that was evaluated failed: its error leaves the construct
+        return 'error-of-evaluated-operand-lost construct=%s' % site_name(ast), 'an evaluated operand raised %s' % raised[0]
+    return None
+
+
+def lazy_constructs_inside(ast):
+    """the lazy constructs nested in ast, innermost first (ast itself excluded)"""
+    out = []
+
+    def walk(x, top):
+        if is_node(x):
+            for c in x[1:]:
+                walk(c, False)
+            if not top and (x[0] in DECIDERS or x[0] == 'not'):
+                out.append(x)
+        elif isinstance(x, (list, tuple)):
+            for y in x:
+                walk(y, False)
+    walk(ast, True)
+    return out
+
+
+def innermost_failing(ast):
+    """A failing case of the lazy part is reduced to the innermost construct in it that fails when it is
+    evaluated on its own (the operands are closed expressions): that construct names the finding.
+    -> (ast, pattern, model outcome, log, outcome, verdict) or None if every nested construct behaves."""
+    for sub in lazy_constructs_inside(ast):
+        pattern, exp = M.trace(sub)
+        raised = list(M.RAISED)
+        if pattern is None:
+            continue
+        log, out = observe(I.text(sub))
+        bad = log is not None and verdict(sub, pattern, log, out, raised)
+        if bad:
+            return sub, pattern, exp, log, out, bad
+    return None
 
 
 def judge_model(res, part, label, ast, profile='limits'):
     text = I.text(ast)
     res.case((part, text) if profile == 'limits' else (part, text, profile))
     pattern, exp = M.trace(ast)
+    raised = list(M.RAISED)
+    if pattern is None and I.NOTES & ENDLESS:
+        # the consumer does not stop within the horizon of the model: never ends without an iterator limit
+        res.out_of_domain += 1
+        res.outcomes[part + ' out-of-domain (endless source not stopped)'] += 1
+        return
+    core.CURRENT_CASE[0] = {'kind': 'model', 'part': part, 'label': label, 'ast': ast, 'profile': profile}
     log, out = observe(text, profile)
     res.evaluations += 1
     if pattern is None or log is None:
@@ -664,13 +840,19 @@ def judge_model(res, part, label, ast, profile='limits'):
     res.transitions += 1
     if pattern:
         res.nontrivial += 1
-    ok = M.admits(pattern, log)
+    bad = verdict(ast, pattern, log, out, raised)
     res.outcomes['%s %s ticks=%s' % (part, 'value' if out[0] == 'v' else 'error', min(len(log), 6))] += 1
-    if not ok:
-        res.fail('order construct=%s part=%s' % (culprit(ast, pattern, log), part),
+    if raised:
+        res.extra['cases_in_which_an_evaluated_operand_raises'] = res.extra.get('cases_in_which_an_evaluated_operand_raises', 0) + 1
+    if bad:
+        inner = innermost_failing(ast) if part == 'lazy' else None
+        if inner:
+            ast, pattern, exp, log, out, bad = inner
+            text = I.text(ast)
+        res.fail('%s part=%s' % (bad[0], part),
                  {'kind': 'model', 'part': part, 'label': label, 'ast': ast, 'profile': profile},
-                 'text %s: observed ticks %r, outcome %r; expected pattern %r (model outcome %r)'
-                 % (text, log, out[:2], pattern, exp))
+                 'text %s: observed ticks %r, outcome %r; expected pattern %r (model outcome %r; %s)'
+                 % (text, log, out[:2], pattern, exp, bad[1]))
 
 
 def job_model(part, tier, k, K):
@@ -797,6 +979,8 @@ def replay(case):
     ast = case['ast']
     text = I.text(ast)
     pattern, exp = M.trace(ast)
+    raised = list(M.RAISED)
     log, out = observe(text, case.get('profile') or 'limits')
-    return {'text': text, 'observed': repr((log, out[:2])), 'expected': repr(pattern),
-            'ok': pattern is None or (log is not None and M.admits(pattern, log))}
+    expected = repr(pattern) + (', error %s' % raised[0] if raised else '')
+    return {'text': text, 'observed': repr((log, out[:2])), 'expected': expected,
+            'ok': pattern is None or (log is not None and verdict(ast, pattern, log, out, raised) is None)}
